@@ -5,6 +5,8 @@ import (
 	"flag"
 	"fmt"
 	"os"
+	"strconv"
+	"strings"
 
 	"verif/engine/sym"
 )
@@ -21,7 +23,16 @@ func main() {
 	maxPaths := flag.Int("maxpaths", 0, "stop after this many paths (reported as bound failure)")
 	out := flag.String("out", "", "write result JSON here")
 	qlog := flag.String("qlog", "", "log deciding queries")
+	funcs := flag.Bool("funcs", false, "include names of executed repo functions in the result")
+	params := flag.String("params", "", "harness bounds: name=val,name=val")
 	flag.Parse()
+	pm := map[string]int{}
+	for _, kv := range strings.Split(*params, ",") {
+		if k, v, ok := strings.Cut(kv, "="); ok {
+			n, _ := strconv.Atoi(v)
+			pm[k] = n
+		}
+	}
 	p, err := sym.Load(*dir, *pkg, *hdir)
 	if err != nil {
 		fmt.Fprintln(os.Stderr, "load:", err)
@@ -31,14 +42,20 @@ func main() {
 		os.Exit(sym.RunConcrete(p, *fn))
 	}
 	st, err := sym.Explore(p, sym.Config{Harness: *fn, Workers: *workers, SolverKind: *solver,
-		TimeoutMS: *timeout, MaxPaths: *maxPaths, QueryLog: *qlog})
+		TimeoutMS: *timeout, MaxPaths: *maxPaths, QueryLog: *qlog, Params: pm})
 	if err != nil {
 		fmt.Fprintln(os.Stderr, "explore:", err)
 		os.Exit(2)
 	}
-	b, _ := json.MarshalIndent(st.Summary(), "", " ")
+	sum := st.Summary()
+	if *funcs {
+		sum["func_names"] = sym.SortedKeys(st.FuncsExecuted)
+	}
+	b, _ := json.MarshalIndent(sum, "", " ")
 	if *out != "" {
 		os.WriteFile(*out, b, 0o644)
 	}
-	fmt.Println(string(b))
+	if *out == "" {
+		fmt.Println(string(b))
+	}
 }
